@@ -1123,6 +1123,16 @@ fn sql_from(f: &From, db: &[Table], next: &mut usize, col: &dyn Fn(usize) -> Str
     }
 }
 
+/// ` WHERE `, in a third of the statements (chosen by the text so far) after a comment that runs to the end of its line:
+/// a lexer that does not end the comment there loses the rest of the statement
+fn where_kw(sql_so_far: &str) -> &'static str {
+    match sql_so_far.len() % 6 {
+        0 => " -- only the rows that qualify\n WHERE ",
+        1 => " --\n WHERE ",
+        _ => " WHERE ",
+    }
+}
+
 pub fn sql_stmt(s: &Stmt, db: &[Table]) -> String {
     match s {
         Stmt::Select(q) => {
@@ -1190,7 +1200,7 @@ pub fn sql_stmt(s: &Stmt, db: &[Table]) -> String {
             };
             let mut sql = format!("{}SELECT {}{} FROM {}", with, if q.distinct { "DISTINCT " } else { "" }, items, from_sql);
             if let Some(wh) = &q.where_ {
-                sql += &format!(" WHERE {}", sql_expr(wh, 1, &col));
+                sql += &format!("{}{}", where_kw(&sql), sql_expr(wh, 1, &col));
             }
             if !q.group_by.is_empty() {
                 sql += &format!(
@@ -1248,7 +1258,7 @@ pub fn sql_stmt(s: &Stmt, db: &[Table]) -> String {
             let ss: Vec<String> = sets.iter().map(|(c, e)| format!("c{} = {}", c, sql_expr(e, 1, &col))).collect();
             let mut sql = format!("UPDATE t{} SET {}", t, ss.join(", "));
             if let Some(w) = w {
-                sql += &format!(" WHERE {}", sql_expr(w, 1, &col));
+                sql += &format!("{}{}", where_kw(&sql), sql_expr(w, 1, &col));
             }
             sql
         }
@@ -1256,7 +1266,7 @@ pub fn sql_stmt(s: &Stmt, db: &[Table]) -> String {
             let col = |i: usize| format!("c{}", i);
             let mut sql = format!("DELETE FROM t{}", t);
             if let Some(w) = w {
-                sql += &format!(" WHERE {}", sql_expr(w, 1, &col));
+                sql += &format!("{}{}", where_kw(&sql), sql_expr(w, 1, &col));
             }
             sql
         }
